@@ -314,8 +314,78 @@ def run_isolation(case):
             "outcome": f"iso:bad={len(bad)}" if not fails else "FAIL"}
 
 
+# long runs of one character class in every token position, ended by a character that does not belong there: a reader
+# that backtracks (or recurses) over the run does not terminate in any useful sense
+LONG_L = (16, 28, 40, 64, 256, 4096)
+LONG_END = ("&", "/", "=", "+", "@", "%", " ", "\u00e9", "\t", '"', ".", "")
+LONG_SHAPES = {
+    "name": lambda r, e: "X" * r + e + ":v",
+    "x-name": lambda r, e: "X-" + "a1-" * (r // 3) + e + ":v",
+    "dotted-name": lambda r, e: "a." * (r // 2) + e + ":v",
+    "no-colon": lambda r, e: "NHVhbGVj" * (r // 8) + e + "ctz",
+    "param-key": lambda r, e: "X-A;" + "p" * r + e + "=1:v",
+    "param-key-dashes": lambda r, e: "X-A;" + "-" * r + e + "=1:v",
+    "param-value": lambda r, e: "X-A;P=" + "v" * r + e + ":v",
+    "quoted-open": lambda r, e: 'X-A;P="' + "q" * r + e + ":v",
+    "many-params": lambda r, e: "X-A" + ";P=1" * (r // 4) + e + ":v",
+    "many-values": lambda r, e: "X-A;P=" + "a," * (r // 2) + e + ":v",
+    "backslashes": lambda r, e: "COMMENT:" + "\\" * r + e,
+    "date-digits": lambda r, e: "DTSTART:" + "2" * r + e,
+    "duration-digits": lambda r, e: "DURATION:P" + "1" * r + e,
+    "rrule-list": lambda r, e: "RRULE:FREQ=DAILY;BYDAY=" + "MO," * (r // 3) + e,
+    "geo-digits": lambda r, e: "GEO:" + "1" * r + e + ";1",
+    "offset-digits": lambda r, e: "TZOFFSETTO:+" + "0" * r + e,
+    "base64": lambda r, e: "ATTACH;ENCODING=BASE64;VALUE=BINARY:" + "A" * r + e,
+    "period-list": lambda r, e: "FREEBUSY:" + "19970308T160000Z/PT3H," * (r // 22) + e,
+}
+
+
+def run_long(case):
+    _, shape, r, e, as_bytes = case
+    line = LONG_SHAPES[shape](r, e)
+    fails = []
+    keep = ["UID:1", "SUMMARY:kept"]
+
+    def doc(container, with_line):
+        t = "\r\n".join([f"BEGIN:{container}"] + keep[:1] + ([line] if with_line else []) + keep[1:] + ALARM + [f"END:{container}", ""])
+        return t.encode("utf-8") if as_bytes else t
+    outcome = []
+    try:
+        ev = Component.from_ical(doc("VEVENT", True))
+        ref = Component.from_ical(doc("VEVENT", False))
+        out = ev.to_ical()
+        [c.name for c in ev.walk()]
+        kept = snapshot_props(ev) == snapshot_props(ref)
+        if not kept or len(ev.subcomponents) != 1 or len(ev.errors) > 1:
+            fails.append(fail("long:VEVENT-other-content-changed", case, "UID, SUMMARY and the VALARM kept, at most one error", (sorted(ev.keys()), len(ev.subcomponents), ev.errors)))
+        outcome.append("event:dropped" if ev.errors else "event:kept")
+        del out
+    except ValueError:
+        fails.append(fail("long:VEVENT-parse-fails", case, "the line isolated", "ValueError"))
+    except RecursionError as e_:
+        fails.append(fail("long:VEVENT-RecursionError", case, "a result or ValueError", str(e_)[:80]))
+    except Exception as e_:  # noqa: BLE001
+        fails.append(fail(f"long:VEVENT-raises-{type(e_).__name__}", case, "a result or ValueError", str(e_)[:80]))
+    try:
+        td = Component.from_ical(doc("VTODO", True))
+        td.to_ical()
+        outcome.append("todo:accepted")
+    except ValueError:
+        outcome.append("todo:ValueError")
+    except Exception as e_:  # noqa: BLE001
+        fails.append(fail(f"long:VTODO-raises-{type(e_).__name__}", case, "a result or ValueError", str(e_)[:80]))
+    return {"state": ("long", shape, r, e, tuple(outcome)), "trans": 6, "nontrivial": True, "fails": fails,
+            "outcome": "|".join(outcome) if not fails else "FAIL"}
+
+
+def snapshot_props(c):
+    return {k: str(c[k]) for k in c.keys() if k in ("UID", "SUMMARY")}
+
+
 def run_case(case):
     k = case[0]
+    if k == "long":
+        return run_long(case)
     if k == "dev":
         return run_dev(case)
     if k == "iso":
@@ -329,7 +399,7 @@ replay = run_case
 def run(ctx):
     k = 2 if ctx.quick else 3
     sd = seeds(ctx.quick)
-    ctx.rule = (f"E-dev: {len(sd)} seeds (14 generated + repository example files"
+    ctx.rule = (f"(L) long runs: {len(LONG_SHAPES)} token positions x run lengths {LONG_L} x {len(LONG_END)} terminators x str/bytes, each inside VEVENT (isolated) and VTODO (strict), 5 s watchdog per case; E-dev: {len(sd)} seeds (14 generated + repository example files"
                 + (", the 25 smallest in quick" if ctx.quick else "") + ") x every single deviation at every line (delete, duplicate, "
                 f"swap, drop value, drop name, re-kind, {len(JUNK)} junk values, {len(HOSTILE)} hostile lines) + truncation at every byte "
                 "of the generated seeds + 64-deep wrapping" + ("" if ctx.quick else " + all pairs (hostile insert x junk value) on 4 generated seeds")
@@ -409,3 +479,12 @@ def run(ctx):
     ctx.explore("A:deviations", gen_dev, run_case)
     ctx.explore("B:token-soup", gen_soup, run_case)
     ctx.explore("isolation", gen_iso, run_case)
+
+    def gen_long():
+        for shape in LONG_SHAPES:
+            for r in LONG_L:
+                for e in LONG_END:
+                    for as_bytes in (False, True):
+                        yield ("long", shape, r, e, as_bytes)
+
+    ctx.explore("long-runs-in-every-token-position", gen_long, run_case, limit=5.0)
